@@ -242,6 +242,49 @@ Section Cycle.
 
   (* One worker cycle on the view [v]: returns the new server object, the new memory and the
      events the server emitted (snapshots), given the current server object [s]. *)
+  (* 1. merge-patch part: addressed by name, lands on whatever the object is now.
+        -> (server, events, freshest body known to the worker) *)
+  Definition stage_merge (d : decision) (alive : bool) (s v : obj) : obj * list obj * obj :=
+    if has_merge d && alive then
+      let s' := apply_merge d s in
+      if same_content s s' then (s, [], s) else (s', [s'], s')
+    else (s, [], v).
+
+  (* 2. transformations as a JSON-patch against the freshest body known, pinned to its version.
+        -> (server, events, carried transformations) *)
+  Definition stage_fns (d : decision) (alive : bool) (s1 fresh : obj) : obj * list obj * list fn :=
+    let want := fin_after (d_fns d) (o_fin fresh) in
+    match d_fns d with
+    | [] => (s1, [], [])
+    | _ =>
+        if negb alive then (s1, [], [])
+        else if Bool.eqb want (o_fin fresh) then (s1, [], [])                 (* no operations: nothing is sent *)
+        else if Nat.eqb (o_rv fresh) (o_rv s1)
+             then let s' := mkObj (S (o_rv s1)) (o_ess s1) (o_last s1) (o_recs s1) want (o_dummy s1) in (s', [s'], [])
+             else (s1, [], d_fns d)                                      (* 422: carried to the next cycle *)
+    end.
+
+  (* 3. sleep / touch.  -> (server, events, timer) *)
+  Definition stage_sleep (d : decision) (patched alive : bool) (now : nat) (s2 : obj) : obj * list obj * option nat :=
+    match min_list (d_delays d) with
+    | None => (s2, [], None)
+    | Some dl =>
+        if patched || negb alive then (s2, [], None)                    (* the patch's own echo re-triggers *)
+        else if Nat.eqb dl 0
+             then let s' := mkObj (S (o_rv s2)) (o_ess s2) (o_last s2) (o_recs s2) (o_fin s2) true in (s', [s'], None)  (* touch now *)
+             else (s2, [], Some (now + dl))
+    end.
+
+  (* worker: the echo of the own patch clears the expectation *)
+  Definition expect_after_event (m : mem) (v : obj) : option (nat * nat) :=
+    match m_expected m with
+    | Some (rv, dl) => if Nat.eqb rv (o_rv v) then None else Some (rv, dl)
+    | None => None
+    end.
+
+  Definition pending_at (now : nat) (e : option (nat * nat)) : bool :=
+    match e with Some (_, dl) => now <? dl | None => false end.
+
   (* [lost]: the process dies inside this cycle: 1 = before its merge-patch reaches the server, 2 = before the
      JSON-patch, 3 = before the touch, 0 (or > 3) = it survives the cycle.  Handlers invoked stay invoked. *)
   Definition cycle (w : world) (v : obj) (rest : list obj) (oracle : hid -> outcome) (waited : bool) (lost : nat) : world :=
@@ -250,46 +293,17 @@ Section Cycle.
     let alive3 := alive2 && negb (Nat.eqb lost 3) in
     let s := w_srv w in
     let m := w_mem w in
-    (* worker: the echo of the own patch clears the expectation *)
-    let exp0 := match m_expected m with
-                | Some (rv, dl) => if Nat.eqb rv (o_rv v) then None else Some (rv, dl)
-                | None => None
-                end in
-    let pending := match exp0 with Some (_, dl) => w_now w <? dl | None => false end in
+    let exp0 := expect_after_event m v in
+    let pending := pending_at (w_now w) exp0 in
     (* an inconsistent worker with nothing queued sleeps until the deadline (waited) unless interrupted *)
     let now := match exp0 with Some (_, dl) => if pending && waited then dl else w_now w | None => w_now w end in
     let consistent := negb pending || waited in
     let d := process_at (m_initial m) now (w_need_fin w) (m_carried m) consistent v oracle in
     let log' := w_log w ++ map (fun x => (fst (fst x), snd (fst x), o_ess v, snd x)) (d_invoked d) in
-    (* 1. merge-patch part: addressed by name, lands on whatever the object is now *)
-    let '(s1, ev1, fresh) :=
-        if has_merge d && alive1 then
-          let s' := apply_merge d s in
-          if same_content s s' then (s, [], s) else (s', [s'], s')
-        else (s, [], v) in
-    (* 2. transformations as a JSON-patch against the freshest body known, pinned to its version *)
-    let want := fin_after (d_fns d) (o_fin fresh) in
-    let '(s2, ev2, carried') :=
-        match d_fns d with
-        | [] => (s1, [], [])
-        | _ =>
-            if negb alive2 then (s1, [], [])
-            else if Bool.eqb want (o_fin fresh) then (s1, [], [])                 (* no operations: nothing is sent *)
-            else if Nat.eqb (o_rv fresh) (o_rv s1)
-                 then let s' := mkObj (S (o_rv s1)) (o_ess s1) (o_last s1) (o_recs s1) want (o_dummy s1) in (s', [s'], [])
-                 else (s1, [], d_fns d)                                      (* 422: carried to the next cycle *)
-        end in
+    let '(s1, ev1, fresh) := stage_merge d alive1 s v in
+    let '(s2, ev2, carried') := stage_fns d alive2 s1 fresh in
     let patched := has_merge d || match d_fns d with [] => false | _ => true end in
-    (* 3. sleep / touch *)
-    let '(s3, ev3, timer') :=
-        match min_list (d_delays d) with
-        | None => (s2, [], None)
-        | Some dl =>
-            if patched || negb alive3 then (s2, [], None)                    (* the patch's own echo re-triggers *)
-            else if Nat.eqb dl 0
-                 then let s' := mkObj (S (o_rv s2)) (o_ess s2) (o_last s2) (o_recs s2) (o_fin s2) true in (s', [s'], None)  (* touch now *)
-                 else (s2, [], Some (now + dl))
-        end in
+    let '(s3, ev3, timer') := stage_sleep d patched alive3 now s2 in
     let wrote := match ev1 ++ ev2 ++ ev3 with [] => false | _ => true end in
     let exp' := if wrote then Some (o_rv s3, now + ctimeout) else exp0 in
     mkWorld s3 (mkMem true (rest ++ ev1 ++ ev2 ++ ev3) carried' timer' exp' (m_initial m && negb (d_handled d))) (w_need_fin w) now log'.
